@@ -1245,6 +1245,8 @@ impl<'a> CompilerState<'a> {
                     let mut start = 0;
                     let mut var_const = var_const_ex;
                     let mut set_const = set_const_ex;
+                    // What this declarator does to the memory class doesn't apply to the next ones
+                    let mut memory = memory.clone();
                     for p in pair.into_inner() {
                         match p.as_rule() {
                             Rule::pointer => {
